@@ -475,7 +475,11 @@ func distributeExtraSpace(context *layoutContext, affectedSizes, affectedTracksT
 }
 
 // direction : 'x' or 'y'
-func resolveTracksSizes(context *layoutContext, sizingFunctions [][2]pr.DimOrS, boxSize pr.MaybeFloat, childrenPositions map[Box]rect,
+//
+// childrenOrder lists the keys of childrenPositions in the order they were
+// positioned (the iteration order of the Python dict): the order of a Go map
+// is random, and the loops below depend on it.
+func resolveTracksSizes(context *layoutContext, sizingFunctions [][2]pr.DimOrS, boxSize pr.MaybeFloat, childrenPositions map[Box]rect, childrenOrder []Box,
 	implicitStart int, direction byte, gap pr.Float,
 	containingBlock bo.Box, orthogonalSizes [][2]pr.Float,
 ) [][2]pr.Float {
@@ -517,8 +521,8 @@ func resolveTracksSizes(context *layoutContext, sizingFunctions [][2]pr.DimOrS, 
 	// TODO: Shim items.
 	// 1.2.2 Size tracks to fit non-spanning items.
 	tracksChildren := make([][]Box, len(tracksSizes))
-	for child, rect := range childrenPositions {
-		x, y, width, height := rect.unpack()
+	for _, child := range childrenOrder {
+		x, y, width, height := childrenPositions[child].unpack()
 		coord, size := y, height
 		if direction == 'x' {
 			coord, size = x, width
@@ -638,9 +642,9 @@ func resolveTracksSizes(context *layoutContext, sizingFunctions [][2]pr.DimOrS, 
 	for _, span := range spans {
 		tracksChildren := make([][]Box, len(sizingFunctions))
 		i := -1
-		for child, rect := range childrenPositions {
+		for _, child := range childrenOrder {
 			i++
-			x, y, width, height := rect.unpack()
+			x, y, width, height := childrenPositions[child].unpack()
 			coord, size := x, width
 			if direction == 'y' {
 				coord, size = y, height
@@ -674,9 +678,9 @@ func resolveTracksSizes(context *layoutContext, sizingFunctions [][2]pr.DimOrS, 
 			}
 		}
 		i = -1
-		for child, rect := range childrenPositions {
+		for _, child := range childrenOrder {
 			i++
-			x, y, width, height := rect.unpack()
+			x, y, width, height := childrenPositions[child].unpack()
 			coord, size := x, width
 			if direction == 'y' {
 				coord, size = y, height
@@ -994,6 +998,13 @@ func gridLayout(context *layoutContext, box_ Box, bottomSpace pr.Float, skipStac
 
 	// 1.1 Position anything that’s not auto-positioned.
 	childrenPositions := map[Box]rect{}
+	var childrenOrder []Box // the keys of childrenPositions, in insertion order
+	setPosition := func(child Box, r rect) {
+		if _, has := childrenPositions[child]; !has {
+			childrenOrder = append(childrenOrder, child)
+		}
+		childrenPositions[child] = r
+	}
 	for _, child := range box.Children {
 		columnStart := child.Box().Style.GetGridColumnStart()
 		columnEnd := child.Box().Style.GetGridColumnEnd()
@@ -1005,7 +1016,7 @@ func gridLayout(context *layoutContext, box_ Box, bottomSpace pr.Float, skipStac
 		if columnPlacement.isNotNone() && rowPlacement.isNotNone() {
 			x, width := columnPlacement.unpack()
 			y, height := rowPlacement.unpack()
-			childrenPositions[child] = rect{x, y, width, height}
+			setPosition(child, rect{x, y, width, height})
 		}
 	}
 
@@ -1028,7 +1039,7 @@ func gridLayout(context *layoutContext, box_ Box, bottomSpace pr.Float, skipStac
 		columnEnd := child.Box().Style.GetGridColumnEnd()
 		x, width := getColumnPlacement(rowPlacement, columnStart, columnEnd, extractNames(columns),
 			childrenPositions, utils.IsIn(flow, "dense")).unpack()
-		childrenPositions[child] = [4]int{x, y, width, height}
+		setPosition(child, rect{x, y, width, height})
 	}
 
 	// 1.3 Determine the columns in range the implicit grid.
@@ -1133,7 +1144,7 @@ func gridLayout(context *layoutContext, box_ Box, bottomSpace pr.Float, skipStac
 					implicitY2 = y + height
 				}
 				// 3. Set the item’s row-start line.
-				childrenPositions[child] = rect{x, y, width, height}
+				setPosition(child, rect{x, y, width, height})
 			} else {
 				// 1. Set the cursor’s row && column positions.
 				cursorX, cursorY = implicitX1, implicitY1
@@ -1166,7 +1177,7 @@ func gridLayout(context *layoutContext, box_ Box, bottomSpace pr.Float, skipStac
 						} else {
 							// Free place found.
 							// 3. Set the item’s row-/column-start lines.
-							childrenPositions[child] = [4]int{x, y, width, height}
+							setPosition(child, rect{x, y, width, height})
 							yDiff := cursorY + height - 1 - implicitY2
 							if yDiff > 0 {
 								for c := 0; c < yDiff; c++ {
@@ -1247,7 +1258,7 @@ func gridLayout(context *layoutContext, box_ Box, bottomSpace pr.Float, skipStac
 					}
 					implicitY2 = y + height
 				} // 3. Set the item’s row-start line.
-				childrenPositions[child] = [4]int{x, y, width, height}
+				setPosition(child, rect{x, y, width, height})
 			} else {
 				for {
 					// 1. Increment the column position of the cursor.
@@ -1280,7 +1291,7 @@ func gridLayout(context *layoutContext, box_ Box, bottomSpace pr.Float, skipStac
 						} else {
 							// Free place found.
 							// 2. Set the item’s row-/column-start lines.
-							childrenPositions[child] = [4]int{x, y, width, height}
+							setPosition(child, rect{x, y, width, height})
 							hasBroken = true
 							break
 						}
@@ -1347,11 +1358,11 @@ func gridLayout(context *layoutContext, box_ Box, bottomSpace pr.Float, skipStac
 	columnSizingFunctions := extractDims(columns)
 
 	// 3.1 Resolve the sizes of the grid columns.
-	columnsSizes := resolveTracksSizes(context, columnSizingFunctions, box.Width, childrenPositions, implicitX1,
+	columnsSizes := resolveTracksSizes(context, columnSizingFunctions, box.Width, childrenPositions, childrenOrder, implicitX1,
 		'x', columnGap, box_, nil)
 
 	// 3.2 Resolve the sizes of the grid rows.
-	rowsSizes := resolveTracksSizes(context, rowSizingFunctions, box.Height, childrenPositions, implicitY1,
+	rowsSizes := resolveTracksSizes(context, rowSizingFunctions, box.Height, childrenPositions, childrenOrder, implicitY1,
 		'y', rowGap, box_, columnsSizes)
 
 	// 3.3 Re-resolve the sizes of the grid columns with min-/max-content.
